@@ -354,6 +354,26 @@ def entry_id(ck, w, rule):
             start, stop = C(0), args[0]
     if start is None or stop is None:
         raise AnalysisError(f"{wf}: index expression not recognised: {T.show(idx)}")
+    # an optional parameter with a constant default that no call site in the program passes stands for its default (a `firstEntryId=1`
+    # nobody uses is the number 1; as soon as one caller passes something the parameter stays a parameter and the rule compares with it)
+    defaults = {}
+    cparams = [pp for pp in fn.call_params()]
+    sites = [s_ for s_ in ck.ctx.cg.sites_calling(fn) if not s_.caller.module.is_test]
+    for i, pp in enumerate(cparams):
+        if pp.default is None or not isinstance(pp.default, ast.Constant) or isinstance(pp.default.value, bool) \
+                or not isinstance(pp.default.value, (int, float)):
+            continue
+        passed = False
+        for s_ in sites:
+            if any(isinstance(a, ast.Starred) for a in s_.node.args) or any(k.arg is None for k in s_.node.keywords) \
+                    or len(s_.node.args) > i or any(k.arg == pp.name for k in s_.node.keywords):
+                passed = True
+        if sites and not passed:
+            defaults[V(pp.name)] = C(pp.default.value)
+    if defaults:
+        start, stop = T.substitute(start, defaults), T.substitute(stop, defaults)
+        if stop[0] == "poly":
+            stop = T.p_add(stop, C(0))
     ck.judge(start == C(1) and stop == want_stop, rule, "writeAlignments:index", wf,
              "XmapEntryID = 1 .. len(rows)", found=f"start={T.show(start)}, stop={T.show(stop)}",
              required=f"start=1, stop={T.show(want_stop)}")
